@@ -34,7 +34,7 @@ pub struct Case {
 pub struct C10;
 
 const CAPACITIES: [usize; 6] = [1, 2, 3, 5, 16, 8192];
-const ALPHABET: [&str; 17] = ["a", "b", "é", "€", "😀", " ", "x", "\r", "1", ";", "\u{feff}", "\u{2028}", "\u{85}", "\0", "\u{c}", "\u{b}", "\t"];
+const ALPHABET: [&str; 18] = ["a", "b", "é", "€", "😀", " ", "x", "\r", "1", ";", "\u{feff}", "\u{2028}", "\u{85}", "\0", "\u{c}", "\u{b}", "\t", "\u{fffd}"];
 
 fn boundaries(case: &Case) -> Vec<usize> {
     let mut inner: Vec<usize> = case.polls.iter().copied().filter(|p| *p > 0 && *p < case.content.len()).collect();
@@ -193,7 +193,7 @@ impl Property for C10 {
     }
 
     fn rule(&self) -> String {
-        "content (0-8 lines over an alphabet with 1-4 byte characters, CR, empty lines, lines longer than the reader buffer, optional unterminated tail) x the set of byte offsets at which the \
+        "content (0-8 lines over an alphabet with 1-4 byte characters, CR, empty lines, lines longer than the reader buffer, optional unterminated tail; one case in 150: 100-400 KiB in thousands of lines or a few lines of 70 KiB each, buffers up to 100 000 bytes) x the set of byte offsets at which the \
          reader observes EOF (single bytes, inside multi-byte characters, just before / after the newline) x idle polls x reader buffer capacity {1,2,3,5,16,8192} x content pre-existing at start-up \
          x --head on/off; executed with the follow_idle hook so that appends land exactly at the reader's EOF observations. Oracle: delivered strings = the newline-terminated lines of the content \
          (from byte 0 with --head, else from the first byte appended after start-up), each once, in order, byte-exact; the unterminated tail never. Bounded-exhaustive: every content over {a, é, €, \\n} \
@@ -248,6 +248,26 @@ impl Property for C10 {
                 content.push_str(*t.pick(&ALPHABET));
             }
         }
+        // one case in 150: far more than any buffer holds (a backlog or an append of 100-400 KiB), in many lines or a few huge ones
+        let big = t.chance(1, 150);
+        if big {
+            let mut prefix = String::new();
+            for _ in 0..t.draw(30) {
+                prefix.push_str(*t.pick(&ALPHABET));
+            }
+            let prefix = prefix.replace('\n', "");
+            if t.chance(1, 4) {
+                for i in 0..2 + t.draw(3) {
+                    content.push_str(&format!("{}{}", i, prefix).repeat(70_000 / (prefix.len() + 1) + 1));
+                    content.push('\n');
+                }
+            } else {
+                let n = *t.pick(&[1500usize, 2500, 4000, 8000]);
+                for i in 0..n {
+                    content.push_str(&format!("{}{}\n", prefix, i));
+                }
+            }
+        }
         let len = content.len();
         let mut polls = Vec::new();
         if len > 1 {
@@ -279,7 +299,7 @@ impl Property for C10 {
             _ => 0,
         };
         let exec_level = t.chance(1, 40);
-        let mut case = Case { content, polls, idle: Vec::new(), pre: 0, head, capacity: *t.pick(&CAPACITIES), exec_level };
+        let mut case = Case { content, polls, idle: Vec::new(), pre: 0, head, capacity: if big { *t.pick(&[16usize, 8192, 8192, 65536, 100_000]) } else { *t.pick(&CAPACITIES) }, exec_level };
         if !head {
             // the start position must be a character boundary (the content before it is not read)
             let b = boundaries(&case);
@@ -361,6 +381,9 @@ impl Property for C10 {
             obs.label("pre-existing-skipped");
         }
         obs.nontrivial = inside_line;
+        if bytes.len() > 100_000 {
+            obs.label("content>100KiB");
+        }
 
         if case.exec_level {
             obs.label("executor-level");
@@ -423,16 +446,25 @@ impl Property for C10 {
                 "lines-differ"
             };
             let cause = if inside_utf8 { "poll-inside-utf8" } else { "plain" };
-            let show = |v: &Vec<&[u8]>| v.iter().map(|l| String::from_utf8_lossy(l).into_owned()).collect::<Vec<_>>();
+            // (huge contents are shown around the first difference only)
+            let short = |text: String| if text.chars().count() > 3000 { format!("{} ... [{} characters in all]", text.chars().take(3000).collect::<String>(), text.chars().count()) } else { text };
+            let first = got.iter().zip(want.iter()).position(|(g, w)| g != w).unwrap_or(got.len().min(want.len()));
+            let show = |v: &Vec<&[u8]>| short(format!("{:?}", v.iter().skip(first.saturating_sub(1)).take(6).map(|l| short(String::from_utf8_lossy(l).into_owned())).collect::<Vec<_>>()));
+            if expected.len() > 1000 || expected.iter().any(|l| l.len() > 60_000) {
+                obs.label("big-content");
+            }
             return Err(Failure::new(
                 format!("{}: {}", kind, cause),
                 format!(
-                    "content {:?}, reader polls at byte offsets {:?} (pre-existing {} bytes, head={}, capacity {})\n  delivered: {:?}\n  expected:  {:?}",
-                    case.content,
+                    "content {}, reader polls at byte offsets {:?} (pre-existing {} bytes, head={}, capacity {})\n  {} lines delivered, {} expected; from line {} on\n  delivered: {}\n  expected:  {}",
+                    short(format!("{:?}", case.content)),
                     &b[1..b.len() - 1],
                     b[pre],
                     case.head,
                     case.capacity,
+                    got.len(),
+                    want.len(),
+                    first.saturating_sub(1) + 1,
                     show(&got),
                     show(&want)
                 ),
